@@ -13,6 +13,7 @@ import (
 	"github.com/bitcoin-sv/block-headers-service/internal/chaincfg"
 	"github.com/bitcoin-sv/block-headers-service/internal/chaincfg/chainhash"
 	exppeer "github.com/bitcoin-sv/block-headers-service/internal/transports/p2p/peer"
+	"github.com/bitcoin-sv/block-headers-service/internal/wire"
 	"github.com/bitcoin-sv/block-headers-service/verifharness/hist"
 	"github.com/bitcoin-sv/block-headers-service/verifharness/model"
 	"github.com/bitcoin-sv/block-headers-service/verifharness/simnet"
@@ -55,7 +56,10 @@ type C06Plan struct {
 	InitialArg  int        `json:"initialArg"`
 	Events      []C06Event `json:"events"`
 	ExpInbound  bool       `json:"expInbound"` // experimental engine: a second, inbound peer (node 1 if present)
-	WaitMs      int        `json:"waitMs,omitempty"`
+	// Takeover (legacy): node 0 (honest, full) is no sync candidate at first (no NODE_NETWORK), so the service syncs from
+	// node 1, whose connections close at their k-th getheaders; node 0 becomes a candidate when the first one has closed.
+	Takeover bool `json:"takeover,omitempty"`
+	WaitMs   int  `json:"waitMs,omitempty"`
 }
 
 type scenario struct {
@@ -431,7 +435,18 @@ func execC06(sc *scenario) (*stats.Case, error) {
 	}
 	start := time.Now()
 	// during-sync triggers are polled from this goroutine's loop below
+	unhidden := !p.Takeover
+	unhide := func() {
+		if !unhidden {
+			unhidden = true
+			sc.nodes[0].SetServices(uint64(wire.SFNodeNetwork))
+			sc.nodes[0].DropAll()
+		}
+	}
 	pollDuring := func() {
+		if !unhidden && len(sc.nodes) > 1 && sc.nodes[1].Stat().ScriptCloses > 0 {
+			unhide()
+		}
 		for i, e := range p.Events {
 			if !fired[i] && e.When > 0 && e.Node >= 0 && e.Node < len(sc.nodes) && sc.nodes[e.Node].Stat().GetHeaders >= e.When {
 				fire(i)
@@ -465,6 +480,10 @@ func execC06(sc *scenario) (*stats.Case, error) {
 		}
 	}
 	quiet(wait)
+	if !unhidden {
+		unhide() // the sync needed fewer requests than the fault script waits for
+		quiet(wait / 2)
+	}
 	// phase 2: the remaining events, one at a time, each followed by a quiet period
 	for i := range p.Events {
 		if fired[i] {
@@ -524,6 +543,10 @@ func execC06(sc *scenario) (*stats.Case, error) {
 		}
 	}
 	cl["with_fault"] = b2i(fault)
+	if p.Takeover {
+		cl["takeover"] = 1
+		cl["takeover_sync_peer_closed"] = b2i(len(sc.nodes) > 1 && sc.nodes[1].Stat().ScriptCloses > 0)
+	}
 	cl["with_lagging_node"] = b2i(lagFirst)
 	nt := roundTrips >= 2 && (len(p.Events) > 0 || fault || lagFirst || len(p.Forks) > 0 || len(p.Checkpoints) > 1 || (p.Initial != "genesis" && p.Initial != ""))
 	return &stats.Case{Sig: stats.Sig(fmt.Sprintf("%+v", *p)), Nontrivial: nt, Classes: cl, Sample: p}, nil
@@ -629,6 +652,27 @@ func genC06(t *rapid.T) *C06Plan {
 			}
 			lagging = true // the service may sync the fork first; the honest node announces afterwards
 		}
+	}
+	// take-over class (legacy): the sync peer disconnects mid-sync and another peer must take over - made independent of
+	// the engine's random choice of the sync peer by hiding the honest node until the first scripted close
+	if p.Engine == "legacy" && len(p.Forks) == 0 && rapid.IntRange(0, 4).Draw(t, "takeover") == 0 {
+		p.Takeover = true
+		p.Initial, p.Events = "genesis", nil
+		n0 := C06Node{Branch: -1}
+		n0.Spec.Pver, n0.Spec.Cap = rapid.SampledFrom([]uint32{70015, 70011}).Draw(t, "tpver0"), 2000
+		n0.Spec.Services = uint64(wire.SFNodeBloom)
+		n1 := C06Node{Branch: -1}
+		n1.Spec.Pver = rapid.SampledFrom([]uint32{70015, 70011}).Draw(t, "tpver1")
+		n1.Spec.Cap = rapid.SampledFrom([]int{2, 7, 50}).Draw(t, "tcap")
+		if p.HonestLen/n1.Spec.Cap > 60 {
+			n1.Spec.Cap = p.HonestLen/60 + 1
+		}
+		n1.Spec.CloseAt = rapid.IntRange(1, 4).Draw(t, "tcloseat")
+		n1.Spec.CloseAfter = rapid.Bool().Draw(t, "tcloseafter")
+		n1.Spec.FaultConns = rapid.SampledFrom([]int{1, 2, 1000}).Draw(t, "tfaultconns")
+		p.Nodes = []C06Node{n0, n1}
+		p.Events = []C06Event{{Node: 0, K: 1}}
+		return p
 	}
 	during := false
 	for _, e := range p.Events {
